@@ -262,13 +262,16 @@ Definition last_handed (w : Z) (l : list (Z * Z)) : option Z :=
 (* everything below sn was handed over before or declared unavailable: the lowest number that is
    neither is not below sn.  The summary used for the search knows a number iff it was declared
    unavailable (HEARTBEAT first_sn, GAP range, GAP bitmap entry that is not an added sample) or
-   handed over. *)
+   handed over.  "Declared" is C03's DECLARED ([known] / [lowest_unknown]): the whole range of every
+   valid GAP counts, also the far part that the reader does not record since repo fix c71c7f1 (it
+   cannot hand over beyond it before the writer has repeated the GAP, so judging against what was
+   declared is what the property text asks: "declared unavailable by the writer (GAP, ...)"). *)
 Definition holes_summary (s : wspec) (w : Z) (added handed : list (Z * Z)) : wspec :=
   {| s_lo := s_lo s; s_rng := s_rng s;
      s_pts := filter (fun m => negb (pair_mem w m added)) (s_pts s)
               ++ map snd (filter (fun p => fst p =? w) handed);
      s_hbmax := s_hbmax s; s_adv := s_adv s; s_lastbase := s_lastbase s;
-     s_lastcount := s_lastcount s; s_frag := s_frag s |}.
+     s_lastcount := s_lastcount s; s_frag := s_frag s; s_base := s_base s |}.
 Definition no_hole_below (os : ostate) (w sn : Z) : bool :=
   match os_S os w with
   | None => false
